@@ -63,7 +63,7 @@ func checkC06(c *core.Ctx) {
 		}
 		// arbitrary ERR packets
 		r := c.Rng(core.StrID("c06err"), uint64(hidx))
-		nerr := c.N(500, 30000) / nh
+		nerr := c.N(1500, 30000) / nh
 		for i := 0; i < nerr; i++ {
 			f := faultSpec{Kind: "err", At: r.Intn(plan + 1), Lock: r.Bool(), Code: uint16(1 + r.Intn(65535)), Msg: randPrintable(r)}
 			if r.Bool() {
